@@ -32,7 +32,7 @@ AT_ID = "s" + b"at-id-1".hex()
 def suffix(sid):
     """sids r* raise; o* are one-shot (they unsubscribe themselves inside their first callback); c* send a request of their own
     from inside the callback"""
-    return {"r": " raise", "o": " once", "c": " caller", "y": " syncraise"}.get(sid[0], "")
+    return {"r": " raise", "o": " once", "c": " caller", "y": " syncraise", "w": " slow"}.get(sid[0], "")
 
 
 def sub_ops(rng, con, n, live):
@@ -50,7 +50,7 @@ def sub_ops(rng, con, n, live):
             target = rng.choice(sorted(live))                      # subscribing again: no extra effect
             ops.append("sub " + target + suffix(target.split()[-1]))
             continue
-        sid = rng.choice(["s1", "s2", "s3", "r1", "r2", "o1", "c1", "both1", "both1", "y1"])
+        sid = rng.choice(["s1", "s2", "s3", "r1", "r2", "o1", "c1", "both1", "both1", "y1", "w1", "w1"])
         kind = rng.choice(["at", "ac", "ac", "ac", "zone", "zone"] if con.zone_ids else ["at", "ac", "ac"])
         if kind == "at":
             target = "at %s" % sid
@@ -211,7 +211,7 @@ def judge(gen, ops, base):
         w = op.split()
         if w[0] == "sub":
             raising = w[-1] in ("raise", "syncraise")
-            target = " ".join(w[1:-1] if w[-1] in ("raise", "once", "caller", "syncraise") else w[1:])
+            target = " ".join(w[1:-1] if w[-1] in ("raise", "once", "caller", "syncraise", "slow") else w[1:])
             active.setdefault(target, raising)
             continue
         if w[0] == "unsub":
